@@ -15,10 +15,9 @@ def run(ctx):
     if not ctx.build_driver():
         return
     h = _v2.harness(ctx, 'tok')
-    if not h:
-        return
-    _v2.tables_gate(ctx)
-    _v2.tok_stream(ctx, h)
+    if h:   # the oracle below runs even when the model-stream harness failed
+        _v2.tables_gate(ctx)
+        _v2.tok_stream(ctx, h)
     if _v2.harness(ctx, 'c05'):
         ctx.oracle_stream('presentation-changes', ctx.rundir + '/c05.verdicts', ctx.rundir + '/c05.cases')
     ctx.cov['distinct_nontrivial'] = sum(v['nontrivial'] for v in ctx.cov['streams'].values())
